@@ -9,7 +9,7 @@
    every reading operation; the listing agrees with what the resolvers accept. *)
 From Coq Require Import String List Arith Bool.
 Import ListNotations.
-From NP Require Import Base Values Dtype Names Proofs_Names.
+From NP Require Import Base Values Dtype Names Proofs_Names Proofs_Names2.
 
 Theorem C14_same_field_in_every_operation : forall clean,
   (forall s, has_char DOT (clean s) = false) ->
@@ -59,6 +59,56 @@ Theorem C14_listing_consistent : forall F n f, plain_name n = true -> plain_name
   known_hier F [n; f] = (is_nest F n && mem_str f (fields_of F n)).
 Proof. exact listing_consistent. Qed.
 Print Assumptions C14_listing_consistent.
+
+(* For ANY path text, ANY alias state, ANY cleaner and ANY schema (no side condition at all): a path that item access
+   resolves to a field is resolved to the SAME field by reduce, sort_values and dropna, and by item assignment or refused
+   by it; a path that item access refuses is refused by the other reading operations.  No operation silently takes
+   another field or column.  (reduce used to take the LAST component: 'n.a.b' was the field 'b' there and 'a.b' elsewhere;
+   repaired in /repo, and these two theorems fail on the model of the unrepaired code.) *)
+Theorem C14_no_silent_resolution_to_something_else : forall (clean : str -> str) st F path n f,
+  resolve_getitem clean st F path = TField n f ->
+  resolve_reduce clean st F path = TField n f /\
+  resolve_sort clean st F path = TField n f /\
+  resolve_dropna clean st F path = TField n f /\
+  (resolve_setitem clean st F path = TField n f \/ resolve_setitem clean st F path = TRaise).
+Proof. exact readers_agree_on_any_path. Qed.
+Print Assumptions C14_no_silent_resolution_to_something_else.
+
+Theorem C14_refused_together : forall (clean : str -> str) st F path,
+  resolve_getitem clean st F path = TRaise ->
+  resolve_reduce clean st F path = TRaise /\
+  resolve_sort clean st F path = TRaise /\
+  resolve_dropna clean st F path = TRaise.
+Proof. exact readers_refuse_together. Qed.
+Print Assumptions C14_refused_together.
+
+(* field names holding dots (legal punctuation): with backticks around both parts the path is that field in all five
+   operations; without backticks the reading operations still take the field 'a.b' (pandas' reading of the dotted
+   text), never the field 'b', and item assignment refuses *)
+Theorem C14_dotted_field_with_backticks : forall clean : str -> str,
+  (forall s : str, has_char DOT (clean s) = false) ->
+  forall F n f, schema_ok F = true -> plain_name n = true -> dotted_name f = true ->
+  is_nest F n = true -> mem_str f (fields_of F n) = true ->
+  mem_str (plain_path n f) (f_columns F) = false -> (clean n = clean f -> n = f) ->
+  resolve_getitem clean None F (bt_path n f) = TField n f /\
+  resolve_setitem clean None F (bt_path n f) = TField n f /\
+  resolve_reduce clean None F (bt_path n f) = TField n f /\
+  resolve_sort clean None F (bt_path n f) = TField n f /\
+  resolve_dropna clean None F (bt_path n f) = TField n f.
+Proof. exact resolvers_agree_dotted. Qed.
+Print Assumptions C14_dotted_field_with_backticks.
+
+Theorem C14_dotted_field_without_backticks : forall (clean : str -> str) F n f,
+  schema_ok F = true -> plain_name n = true -> dotted_name f = true -> has_char DOT f = true ->
+  is_nest F n = true -> mem_str f (fields_of F n) = true ->
+  mem_str (plain_path n f) (f_columns F) = false ->
+  resolve_getitem clean None F (plain_path n f) = TField n f /\
+  resolve_reduce clean None F (plain_path n f) = TField n f /\
+  resolve_sort clean None F (plain_path n f) = TField n f /\
+  resolve_dropna clean None F (plain_path n f) = TField n f /\
+  resolve_setitem clean None F (plain_path n f) = TRaise.
+Proof. exact unprotected_dotted_field. Qed.
+Print Assumptions C14_dotted_field_without_backticks.
 
 (* non-vacuity: the toy cleaner satisfies the two facts on the names used, and a field with a space resolves *)
 Example C14_nonvacuous :
